@@ -322,17 +322,65 @@ def _r1(ctx):
                          text=f.qualname)
 
 
-def _comp_names(comp):
-    """comprehension variable -> attribute it iterates over:  for R12 in h.R12  /  for a, b in zip(h.R12, h.R23)"""
+DEDUP = ("unique", "drop_duplicates", "sort_values", "sort_index")
+DEDUP_FN = ("np.unique", "set", "sorted", "pd.unique")
+
+
+def _comp_names(comp, fn=None):
+    """comprehension variable -> attribute it iterates over:  for R12 in h.R12  /  for a, b in zip(h.R12, h.R23).
+    Iterables held in locals are resolved through their single definition (tuple assignments included).  Inside a zip of
+    several columns each column must be the row-aligned column itself: one that was de-duplicated or sorted on its own no longer
+    pairs with the others row by row - its variable is then named `<attr><regrouped>`."""
+    local = {}
+    if fn is not None:
+        for st in ast.walk(fn):
+            if isinstance(st, ast.Assign) and len(st.targets) == 1:
+                t, v = st.targets[0], st.value
+                if isinstance(t, ast.Name):
+                    local.setdefault(t.id, []).append(v)
+                elif isinstance(t, (ast.Tuple, ast.List)) and isinstance(v, (ast.Tuple, ast.List)) and len(t.elts) == len(v.elts):
+                    for a, b in zip(t.elts, v.elts):
+                        if isinstance(a, ast.Name):
+                            local.setdefault(a.id, []).append(b)
+
+    def resolve(e):
+        for _ in range(4):
+            if isinstance(e, ast.Name) and len(local.get(e.id, ())) == 1:
+                e = local[e.id][0]
+            else:
+                break
+        return e
+
+    def column(e, in_zip):
+        """(attribute name, regrouped?)"""
+        e = resolve(e)
+        regrouped = False
+        for _ in range(6):
+            if isinstance(e, ast.Call) and isinstance(e.func, ast.Attribute) and e.func.attr in DEDUP + ("to_numpy", "tolist", "copy"):
+                regrouped = regrouped or e.func.attr in DEDUP
+                e = resolve(e.func.value)
+            elif isinstance(e, ast.Call) and call_name(e) in DEDUP_FN + ("np.asarray", "list", "np.array") and e.args:
+                regrouped = regrouped or call_name(e) in DEDUP_FN
+                e = resolve(e.args[0])
+            elif isinstance(e, ast.Attribute) and e.attr == "values":
+                e = resolve(e.value)
+            else:
+                break
+        if isinstance(e, ast.Attribute):
+            return e.attr + ("<regrouped>" if regrouped and in_zip else "")
+        return None
     out = {}
     for g in getattr(comp, "generators", []):
-        it, tg = g.iter, g.target
-        if isinstance(tg, ast.Name) and isinstance(it, ast.Attribute):
-            out[tg.id] = it.attr
+        it, tg = resolve(g.iter), g.target
+        if isinstance(tg, ast.Name):
+            c = column(it, False)
+            if c:
+                out[tg.id] = c
         elif isinstance(tg, ast.Tuple) and isinstance(it, ast.Call) and call_name(it) == "zip":
             for a, b in zip(tg.elts, it.args):
-                if isinstance(a, ast.Name) and isinstance(b, ast.Attribute):
-                    out[a.id] = b.attr
+                c = column(b, len(it.args) > 1)
+                if isinstance(a, ast.Name) and c:
+                    out[a.id] = c
     return out
 
 
@@ -449,7 +497,7 @@ def _r2(ctx):
                     if isinstance(a, ast.List) and len(a.elts) == 1:
                         iv = _interval(a.elts[0])
                     elif isinstance(a, ast.ListComp):
-                        iv = _interval(a.elt, _comp_names(a))
+                        iv = _interval(a.elt, _comp_names(a, g.node))
             seen[k] = (s, iv)
     if not seen:
         # second idiom: {slope name: positions} and one loop  `frame.iloc[locs] = getattr(h, name).iloc[locs]`
@@ -461,7 +509,7 @@ def _r2(ctx):
             if isinstance(a_, ast.List) and len(a_.elts) == 1:
                 return _interval(a_.elts[0])
             if isinstance(a_, ast.ListComp):
-                return _interval(a_.elt, _comp_names(a_))
+                return _interval(a_.elt, _comp_names(a_, g.node))
             return None
         tables = {s_.targets[0].id: s_.value for s_ in g.node.body if isinstance(s_, ast.Assign) and isinstance(s_.targets[0], ast.Name)
                   and isinstance(s_.value, ast.Dict) and s_.value.keys and all(isinstance(const_value(k_), str) for k_ in s_.value.keys)}
@@ -499,7 +547,10 @@ def _r2(ctx):
         if seen[k][1] == iv:
             ctx.holds(g, seen[k][0], "five-segment: %s stored on the rows of (%s, %s]" % (k, iv[0], iv[1]))
         else:
-            ctx.violated(g, seen[k][0], "five-segment: %s is stored on the rows of %s, expected (%s, %s]" % (k, seen[k][1], iv[0], iv[1]))
+            why = " - the zipped columns were de-duplicated / sorted independently, so they no longer pair row by row and some " \
+                "segments are never looked up (their slope stays 0)" if "<regrouped>" in str(seen[k][1]) else ""
+            ctx.violated(g, seen[k][0], "five-segment: %s is stored on the rows of %s, expected (%s, %s]%s" %
+                         (k, seen[k][1], iv[0], iv[1], why))
     mk = [n for n in ast.walk(g.node) if isinstance(n, ast.FunctionDef) and n is not g.node and
           len(calls_in(n, name="pd.Interval")) >= 5]
     if mk:
@@ -806,6 +857,23 @@ def variants():
                 return True
         return False
     out.append(witness("matrix accessor builds its own diagram", MP, own_diagram, "R-C12-1"))
+
+    def dedup(zipped):
+        def f_(tree):
+            f = find_func(tree, "HaighDiagram.five_segment")
+            done = False
+            for comp in [n for n in ast.walk(f) if isinstance(n, ast.ListComp)]:
+                for g_ in comp.generators:
+                    if zipped and isinstance(g_.iter, ast.Call) and call_name(g_.iter) == "zip":
+                        g_.iter.args = [parse_expr(ast.unparse(a_) + ".unique()") for a_ in g_.iter.args]
+                        done = True
+                    elif not zipped and isinstance(g_.iter, ast.Attribute):
+                        g_.iter = parse_expr(ast.unparse(g_.iter) + ".unique()")
+                        done = True
+            return done
+        return f_
+    out.append(witness("R12 / R23 de-duplicated independently before they are zipped", MP, dedup(True), "R-C12-2"))
+    out.append(twin("single columns de-duplicated before the look-up", MP, dedup(False)))
 
     def goal_const(tree):
         f = find_func(tree, "MeanstressTransformCollective.five_segment")
